@@ -271,4 +271,28 @@ def vcJsonLdProof (E : Env) (L : LdEnv) (proofIsObject : Bool) (issuer vm : Stri
     | none => .reject
     | some k => ldProofVerify L k canonicalizes jwsParts sigDecodes
 
+/-! ### crypto/jwx/algorithm.go AlgorithmFitsKey : which algorithm goes with which key (jwx itself only checks the family) -/
+
+/-- what the helper looks at: the ECDSA curve (by NAME), the length of an Ed25519 public key; every other key type is waved through -/
+inductive KeyShape where
+  | ecdsa (curve : String)
+  | ed25519 (len : Nat)
+  | other
+  deriving Repr, DecidableEq
+
+/-- RFC 7518 3.4: THE algorithm of a NIST curve -/
+def algOfCurve : String → Option String
+  | "P-256" => some "ES256"
+  | "P-384" => some "ES384"
+  | "P-521" => some "ES512"
+  | _ => none
+
+def algorithmFitsKey (alg : String) : KeyShape → Bool
+  | .ecdsa c =>
+    match algOfCurve c with
+    | some a => alg == a
+    | none => true                -- a curve the helper does not know (secp256k1 with the ES256K build tag, P-224): left to jwx
+  | .ed25519 n => alg == "EdDSA" && n == 32
+  | .other => true
+
 end Nuts.C17
